@@ -6,8 +6,8 @@ type (
 		matches []any
 	}
 	longestSeq struct {
-		str1            []rune
-		str2            []rune
+		str1            []byte
+		str2            []byte
 		commonStart     int
 		endX            int
 		endY            int
@@ -20,8 +20,8 @@ type (
 
 func newLongestSeq(str1, str2 string) *longestSeq {
 	ls := &longestSeq{
-		str1: []rune(str1),
-		str2: []rune(str2),
+		str1: []byte(str1),
+		str2: []byte(str2),
 	}
 
 	// optimization: process common prefix and common suffix without recursion algorithm
